@@ -102,4 +102,6 @@ def _mem(v, finding=None):
         return False
     if p.get("min_reads") and f.get("n_reads", 0) < p["min_reads"]:
         return False
+    if p.get("fused_only") and not f.get("optimize"):
+        return False
     return f.get("ratio", 99) <= p.get("ceiling", 0)
